@@ -74,6 +74,7 @@ def rand_cores(rng, row_dims, col_dims, ranks, cplx=False, kind='gauss'):
     return cores
 
 
+STRUCT = 0.0  # probability of exactly representable / degenerate data in rand_tt (opt-in per driver)
 LAYOUT = 0.0  # probability that the cores of a generated train get unusual memory layouts (see relayout)
 ALIAS = 0.0  # probability that equal-shaped cores of a generated train are one and the same ndarray object
 PROV = 0.0  # probability that a generated operand is passed through `provenance` (set by the property drivers)
@@ -83,6 +84,8 @@ def rand_tt(rng, row_dims, col_dims, ranks, cplx=False, kind='gauss', scale=None
     cores = rand_cores(rng, row_dims, col_dims, ranks, cplx, kind)
     if scale is not None:
         apply_scale(cores, rng, scale)
+    if STRUCT and rng.random() < STRUCT:
+        structure(rng, cores)
     if LAYOUT and rng.random() < LAYOUT:
         cores = [relayout(rng, c) for c in cores]
     if ALIAS and len(cores) > 1 and rng.random() < ALIAS:
@@ -99,6 +102,28 @@ def rand_tt(rng, row_dims, col_dims, ranks, cplx=False, kind='gauss', scale=None
     return t
 
 
+def structure(rng, cores):
+    """exactly representable / degenerate data (in place): the zero tensor (all cores zero, or a single vanishing core), unit-entry
+    cores (a canonical unit tensor), all-ones cores, entries from {-1, 0, 1} (exact cancellations, exact ties)"""
+    k = int(rng.integers(0, 5))
+    if k == 0:
+        for c in cores:
+            c[...] = 0
+    elif k == 1:
+        cores[int(rng.integers(0, len(cores)))][...] = 0
+    elif k == 2:
+        for c in cores:
+            c[...] = 0
+            c[tuple(int(rng.integers(0, n)) for n in c.shape)] = 1
+    elif k == 3:
+        for c in cores:
+            c[...] = 1
+    else:
+        for c in cores:
+            c[...] = rng.integers(-1, 2, size=c.shape)
+    return cores
+
+
 def provenance(rng, t, steps=None, reorder=False):
     """Operands with a history: the object is passed through value-preserving library operations (in-place sweeps, copies,
     re-construction with a negligible threshold ...) before it is used, so that anything an object carries along besides its
@@ -109,9 +134,22 @@ def provenance(rng, t, steps=None, reorder=False):
     n = int(rng.integers(1, 3)) if steps is None else steps
     with probe.oracle():
         for _ in range(n):
-            k = int(rng.integers(0, 13))
+            k = int(rng.integers(0, 15))
             try:
-                if k == 9:  # a core replaced by its owner (what the solvers do all the time): no method is told about it
+                if k >= 13:
+                    # nearly canonical: an orthonormalised train whose cores were rescaled column by column (row by row) by factors
+                    # 1 + O(1e-6..1e-9) afterwards - orthogonal but not normalised to working precision (a canonical train stored in
+                    # single precision and read back, or normalised with an approximate norm)
+                    q = float(10 ** rng.uniform(-9, -5.3))
+                    if k == 13:
+                        t.ortho_left()
+                        for j in range(t.order - 1):
+                            t.cores[j] = t.cores[j] * (1.0 + q * rng.standard_normal(t.cores[j].shape[3]))[None, None, None, :]
+                    else:
+                        t.ortho_right()
+                        for j in range(1, t.order):
+                            t.cores[j] = t.cores[j] * (1.0 + q * rng.standard_normal(t.cores[j].shape[0]))[:, None, None, None]
+                elif k == 9:  # a core replaced by its owner (what the solvers do all the time): no method is told about it
                     j = int(rng.integers(0, t.order))
                     t.cores[j] = t.cores[j] * float(rng.uniform(0.5, 2.0))
                 elif k == 10:
